@@ -250,6 +250,29 @@ func applyByteMut(b []byte, m mutSpec) ([]byte, bool) {
 	return b, false
 }
 
+// opClass maps an operation to the class of malformation named in the property text.
+func opClass(op string) string {
+	switch op {
+	case "swap", "move":
+		return "reordered-fields"
+	case "dup", "dupend":
+		return "duplicated-fields"
+	case "del":
+		return "missing-field"
+	case "zerofield", "zero", "clear", "empty":
+		return "zero-valued-or-empty"
+	case "tail", "tailfield", "append", "bappend":
+		return "trailing-bytes-or-oversized"
+	case "cut", "trunc", "bcut", "lendelta":
+		return "truncated-or-wrong-length"
+	case "padtag", "padlen", "padvarint":
+		return "non-minimal-varint"
+	case "wt", "fieldnum":
+		return "retyped-field"
+	}
+	return "value-change"
+}
+
 func isByteOp(op string) bool { return op == "bcut" || op == "bflip" || op == "bappend" }
 
 // ---- generation of one mutation against a concrete tree ----
@@ -370,9 +393,9 @@ func genMut(rt *rapid.T, root *node) mutSpec {
 		}
 	}
 	if !t.Root {
-		ops = append(ops, "padtag", "wt", "fieldnum")
+		ops = append(ops, "padtag", "padtag", "wt", "fieldnum")
 		if t.WT == wtLen {
-			ops = append(ops, "padlen", "lendelta")
+			ops = append(ops, "padlen", "padlen", "lendelta")
 		}
 	}
 	m.Op = rapid.SampledFrom(ops).Draw(rt, "op")
